@@ -58,7 +58,7 @@ def run(tier, seed):
     inp, out = os.path.join(d, "cases.ndjson"), os.path.join(d, "out.ndjson")
     nv.write_ndjson(inp, [{"id": i, "shown": True, "texts": True, "exprs": [e[0]]} for i, e in enumerate(uniq)])
     nv.harness("nv-units", ["eval", "--cases", inp, "--out", out])
-    results = nv.read_ndjson_text(open(out).read())
+    results = nv.read_ndjson_text(open(out, encoding="utf-8").read())
     events, origin = [], []
     changed = 0
     for (text, den, explicit), r in zip(uniq, results):
